@@ -54,8 +54,9 @@ CLAIMS = {
  "C10": ("Decides that no constructor chain can call a member of a base sub-object before that sub-object is constructed (initialiser self-references x "
          "call-graph reachability), that every scalar member of every library record is definitely initialised by every constructor, that there is no "
          "mutable static / thread-local state, that user-provided copy/move constructors copy every base and member from the corresponding part, and that "
-         "self-referential objects (reference or pointer into the same complete object) are not copied member-wise. Does not decide behavioural equality "
-         "of two runs as such.",
+         "self-referential objects (reference or pointer into the same complete object) are not copied member-wise, and that a class which "
+         "read-modify-writes caller storage behind a reference member clears it on construction (the serialisation write stream). Does not decide "
+         "behavioural equality of two runs as such.",
          "constructor-initialiser / record-layout rules + call-graph reachability over clang AST facts (static analysis)"),
  "C11": ("Decides absence of dynamic allocation (expressions, callees, member types, includes), that every write growing a fixed array through a member "
          "counter is dominated by a capacity test in the function or at every call site, the one-past read of the bit-range views, that range views "
